@@ -2,6 +2,13 @@
 package main
 
 import (
+	_ "google.golang.org/protobuf/types/known/fieldmaskpb"
+	_ "google.golang.org/protobuf/types/known/wrapperspb"
+	_ "google.golang.org/protobuf/types/known/emptypb"
+	"google.golang.org/protobuf/types/descriptorpb"
+	"google.golang.org/protobuf/reflect/protoregistry"
+	"google.golang.org/protobuf/reflect/protodesc"
+	"google.golang.org/protobuf/proto"
 	"runtime"
 	"fmt"
 	"net/url"
@@ -61,7 +68,7 @@ func recSchema() *gpb.Schema {
 	fw.Msg = wrap
 	fo := gpb.F("o", 5, gpb.KOneof, gpb.Repeated)
 	fo.Msg = wrap
-	rec.Fields = []*gpb.Field{ff, fa, fm, fw, fo, gpb.F("s", 6, gpb.KString, gpb.Single)}
+	rec.Fields = []*gpb.Field{ff, fa, fm, fw, fo, gpb.F("s", 6, gpb.KString, gpb.Single), gpb.F("d", 7, gpb.KDecimal, gpb.Single), gpb.F("ds", 8, gpb.KDecimal, gpb.Repeated), gpb.F("x", 9, gpb.KDouble, gpb.Single), gpb.F("n", 10, gpb.KInt64, gpb.Single), gpb.F("t", 11, gpb.KTimestamp, gpb.Single)}
 	wf := gpb.F("f", 1, gpb.KObject, gpb.Single)
 	wf.Msg = rec
 	wrap.Fields = []*gpb.Field{wf}
@@ -327,6 +334,86 @@ func run(r *vk.Runner) {
 		}
 	}
 
+	// ---- (3b) target types the J5 reflection does not support: decoding must return an error, not crash ----
+	r.Family("unsupported-targets")
+	{
+		str := func(x string) *string { return &x }
+		fld := func(name string, num int32, t descriptorpb.FieldDescriptorProto_Type, typeName string) *descriptorpb.FieldDescriptorProto {
+			f := &descriptorpb.FieldDescriptorProto{Name: str(name), Number: proto.Int32(num), Label: descriptorpb.FieldDescriptorProto_LABEL_OPTIONAL.Enum(), Type: t.Enum()}
+			if typeName != "" {
+				f.TypeName = str(typeName)
+			}
+			return f
+		}
+		mapMsg := func(name string, keyT descriptorpb.FieldDescriptorProto_Type) *descriptorpb.DescriptorProto {
+			entry := &descriptorpb.DescriptorProto{Name: str("MEntry"), Options: &descriptorpb.MessageOptions{MapEntry: proto.Bool(true)},
+				Field: []*descriptorpb.FieldDescriptorProto{fld("key", 1, keyT, ""), fld("value", 2, descriptorpb.FieldDescriptorProto_TYPE_STRING, "")}}
+			m := fld("m", 1, descriptorpb.FieldDescriptorProto_TYPE_MESSAGE, ".ut.v1."+name+".MEntry")
+			m.Label = descriptorpb.FieldDescriptorProto_LABEL_REPEATED.Enum()
+			return &descriptorpb.DescriptorProto{Name: str(name), NestedType: []*descriptorpb.DescriptorProto{entry}, Field: []*descriptorpb.FieldDescriptorProto{m, fld("tail", 2, descriptorpb.FieldDescriptorProto_TYPE_STRING, "")}}
+		}
+		one := func(name string, t descriptorpb.FieldDescriptorProto_Type, typeName string) *descriptorpb.DescriptorProto {
+			rep := fld("ms", 2, t, typeName)
+			rep.Label = descriptorpb.FieldDescriptorProto_LABEL_REPEATED.Enum()
+			return &descriptorpb.DescriptorProto{Name: str(name), Field: []*descriptorpb.FieldDescriptorProto{fld("m", 1, t, typeName), rep, fld("tail", 3, descriptorpb.FieldDescriptorProto_TYPE_STRING, "")}}
+		}
+		fdp := &descriptorpb.FileDescriptorProto{Name: str("ut/v1/t.proto"), Package: str("ut.v1"), Syntax: str("proto3"),
+			Dependency: []string{"google/protobuf/empty.proto", "google/protobuf/wrappers.proto", "google/protobuf/field_mask.proto"},
+			MessageType: []*descriptorpb.DescriptorProto{
+				mapMsg("MapInt32", descriptorpb.FieldDescriptorProto_TYPE_INT32), mapMsg("MapInt64", descriptorpb.FieldDescriptorProto_TYPE_INT64),
+				mapMsg("MapUint32", descriptorpb.FieldDescriptorProto_TYPE_UINT32), mapMsg("MapBool", descriptorpb.FieldDescriptorProto_TYPE_BOOL),
+				one("Fixed64", descriptorpb.FieldDescriptorProto_TYPE_FIXED64, ""), one("Sfixed32", descriptorpb.FieldDescriptorProto_TYPE_SFIXED32, ""),
+				one("Empty", descriptorpb.FieldDescriptorProto_TYPE_MESSAGE, ".google.protobuf.Empty"), one("StringValue", descriptorpb.FieldDescriptorProto_TYPE_MESSAGE, ".google.protobuf.StringValue"),
+				one("FieldMask", descriptorpb.FieldDescriptorProto_TYPE_MESSAGE, ".google.protobuf.FieldMask"),
+			}}
+		fd, err := protodesc.NewFile(fdp, protoregistry.GlobalFiles)
+		if err != nil {
+			panic(err)
+		}
+		docs := []string{`{}`, `null`, `{"tail":"x"}`, `{"m":{"1":"a"}}`, `{"m":{"true":"a"}}`, `{"m":{}}`, `{"m":null}`, `{"m":"1"}`, `{"m":1}`, `{"m":{"a":1}}`, `{"m":[]}`, `{"ms":["1"]}`, `{"ms":[1,{}]}`, `{"ms":[]}`, `{"m":{"paths":["a"]}}`, `{"m":"a,b"}`}
+		queries := []url.Values{{}, {"tail": {"x"}}, {"m": {"1"}}, {"m.1": {"a"}}, {"m.a": {"b"}}, {"ms": {"1", "2"}}, {"m": {""}}, {"m": {"{}"}}}
+		for i := 0; i < fd.Messages().Len(); i++ {
+			md := fd.Messages().Get(i)
+			for di, doc := range docs {
+				md, doc := md, doc
+				r.Do(fmt.Sprintf("unsupported:%s:json:%d", md.Name(), di), func(t *vk.T) {
+					t.Coord("unsupported-target|" + string(md.Name()))
+					t.SigCoord("json")
+					t.Nontrivial()
+					// the same codec twice: the second call meets whatever the first left in the caches
+					codec := j5codec.NewCodec()
+					for k := 0; k < 2; k++ {
+						err := codec.JSONToProto([]byte(doc), dynamicpb.NewMessage(md))
+						t.Step()
+						if err != nil {
+							t.Class("error")
+						} else {
+							t.Class("accepted")
+						}
+					}
+				})
+			}
+			for qi, q := range queries {
+				md, q := md, q
+				r.Do(fmt.Sprintf("unsupported:%s:query:%d", md.Name(), qi), func(t *vk.T) {
+					t.Coord("unsupported-target|" + string(md.Name()))
+					t.SigCoord("query")
+					t.Nontrivial()
+					codec := j5codec.NewCodec()
+					for k := 0; k < 2; k++ {
+						err := codec.QueryToProto(q, dynamicpb.NewMessage(md))
+						t.Step()
+						if err != nil {
+							t.Class("error")
+						} else {
+							t.Class("accepted")
+						}
+					}
+				})
+			}
+		}
+	}
+
 	// ---- (4) nesting bombs and huge scalars ----
 	r.Family("bombs")
 	rs := recSchema()
@@ -424,6 +511,32 @@ func run(r *vk.Runner) {
 	})
 	grow("long-string", func(n int) string { return `{"s":"` + strings.Repeat(`\u0041`, n) + `"}` })
 	grow("long-digits", func(n int) string { return `{"s":` + strings.Repeat("9", n) + `}` })
+	// ---- (4c) amplification: a document of a few bytes must not make the decoder allocate megabytes ----
+	r.Family("amplification")
+	for _, doc := range []string{`{"d":"1e3000000"}`, `{"d":1e3000000}`, `{"d":"1e-3000000"}`, `{"d":"-1E+3000000"}`, `{"ds":["1e3000000"]}`, `{"x":1e3000000}`, `{"x":"1e3000000"}`, `{"n":1e3000000}`, `{"n":"1e18"}`, `{"s":1e3000000}`, `{"t":"9999999999-01-01T00:00:00Z"}`, `{"d":"0.` + strings.Repeat("0", 40) + `1"}`} {
+		doc := doc
+		r.Do("amplification:"+doc[:min(len(doc), 40)], func(t *vk.T) {
+			t.Coord("amplification")
+			t.SigCoord("json")
+			t.Nontrivial()
+			msg := dynamicpb.NewMessage(rs.Desc(rs.Root))
+			var a, b runtime.MemStats
+			_ = codec.JSONToProto([]byte(`{"d":"1"}`), dynamicpb.NewMessage(rs.Desc(rs.Root)))
+			runtime.ReadMemStats(&a)
+			err := codec.JSONToProto([]byte(doc), msg)
+			runtime.ReadMemStats(&b)
+			t.Step()
+			if got := b.TotalAlloc - a.TotalAlloc; got > 1<<20 {
+				t.Violation("amplification|field="+strings.SplitN(strings.TrimPrefix(doc, "{\""), "\"", 2)[0], fmt.Sprintf("decoding the %d byte document %s allocates %d bytes (err=%v): work is not bounded by the input size", len(doc), doc, got, err), doc, "<= 1 MiB", got)
+				return
+			}
+			if err != nil {
+				t.Class("error")
+			} else {
+				t.Class("accepted")
+			}
+		})
+	}
 	for _, d := range []int{10, 1000, 100000} {
 		d := d
 		huge := map[string]string{
